@@ -138,9 +138,6 @@ def dPhiPsiLo (i s : ℕ) : K :=
 
 end terms
 
-/-- assignment `a[k] = v` on an array seen as a function -/
-def upd (st : ℕ → K) (k : ℕ) (v : K) : ℕ → K := fun b => if b = k then v else st b
-
 /-- `massCoeffs.extend(massCoeffs[-2::-1])`: list entry `li` (0..2d) *is* the array created at position
     `li` (if `li ≤ d`) resp. `2d - li` (the same object, not a copy) -/
 def aliasIdx (d li : ℕ) : ℕ := if li ≤ d then li else 2 * d - li
@@ -148,22 +145,25 @@ def aliasIdx (d li : ℕ) : ℕ := if li ≤ d then li else 2 * d - li
 /-- the number of iterations of `for j, s_j in enumerate(range(i, min(i+degree+1, nbasis)), degree)` -/
 def innerCount (d nb i : ℕ) : ℕ := min (i + d + 1) nb - i
 
-/-- Inner loop of row `i` on a symmetric (reference-shared) storage: the `d+1` physical arrays at position `i`
-    after the statements `coeffs[j][i] = term(i, s_j)`, `j = d + k`, `s_j = i + k`. Arrays start at zero. -/
-def symRow (d nb : ℕ) (term : ℕ → ℕ → K) (i : ℕ) : ℕ → K :=
-  (List.range (innerCount d nb i)).foldl (fun st k => upd st (aliasIdx d (d + k)) (term i (i + k))) (fun _ => 0)
+/-- Inner loop of row `i` on a symmetric (reference-shared) storage: position `i` of the `d+1` physical arrays
+    (a list indexed by the array number) after the statements `coeffs[j][i] = term(i, s_j)`, `j = d + k`,
+    `s_j = i + k`.  Arrays start at zero (`np.zeros`); an assignment is `List.set`. -/
+def symRow (d nb : ℕ) (term : ℕ → ℕ → K) (i : ℕ) : List K :=
+  (List.range (innerCount d nb i)).foldl (fun st k => st.set (aliasIdx d (d + k)) (term i (i + k)))
+    (List.replicate (d + 1) 0)
 
 /-- `coeffs[li][i]` of a reference-shared storage after the loops -/
-def symDiag (d nb : ℕ) (term : ℕ → ℕ → K) (li i : ℕ) : K := symRow d nb term i (aliasIdx d li)
+def symDiag (d nb : ℕ) (term : ℕ → ℕ → K) (li i : ℕ) : K := (symRow d nb term i).getD (aliasIdx d li) 0
 
 /-- Inner loop of row `i` on a full storage (`2d+1` independent arrays): the two statements
     `coeffs[j][i] = up(i, s_j)` and then `coeffs[degree*2-j][i] = lo(i, s_j)` (for `j = d` the second overwrites
     the first). -/
-def fullRow (d nb : ℕ) (up lo : ℕ → ℕ → K) (i : ℕ) : ℕ → K :=
+def fullRow (d nb : ℕ) (up lo : ℕ → ℕ → K) (i : ℕ) : List K :=
   (List.range (innerCount d nb i)).foldl
-    (fun st k => upd (upd st (d + k) (up i (i + k))) (d * 2 - (d + k)) (lo i (i + k))) (fun _ => 0)
+    (fun st k => (st.set (d + k) (up i (i + k))).set (d * 2 - (d + k)) (lo i (i + k)))
+    (List.replicate (2 * d + 1) 0)
 
-def fullDiag (d nb : ℕ) (up lo : ℕ → ℕ → K) (li i : ℕ) : K := fullRow d nb up lo i li
+def fullDiag (d nb : ℕ) (up lo : ℕ → ℕ → K) (li i : ℕ) : K := (fullRow d nb up lo i).getD li 0
 
 /-- `sparse.diags(coeffs, range(-d, d+1), (nb, nb))[r, c]` -/
 def diagsEntry (d : ℕ) (diag : ℕ → ℕ → K) (r c : ℕ) : K :=
